@@ -344,6 +344,10 @@ def run_check(mod, tier, seed, nshards=None, builds=(("san", ["worker"]),)):
     print("%s tier=%s seed=%s evaluations=%d distinct_nontrivial=%d violations=%d known=%s wall=%.1fs" % (
         prop, tier, seed, evaluations, len(nontrivial), len(vio), dict(known_hits), time.time() - t0))
     if flaky:
+        try:
+            json.dump(flaky, open(os.path.join(WORK, "flaky-%s.json" % prop), "w"), indent=1, default=str)
+        except Exception:
+            pass
         print("note: %d unconfirmed (flaky) failures were not reported; see evidence notes" % len(flaky))
         for f in flaky[:3]:
             print("  flaky:", json.dumps(f, default=str)[:600])
